@@ -4,7 +4,7 @@
 # (3) its demonstration fails with it, (4) the demonstration passes without it. Writes /tmp/mut/<id>/out/m<k>.validated.json.
 set -u
 id=$1; k=$2
-out=/tmp/mut/$id/out
+out=${MUTROOT:-/tmp/mut}/$id/out
 meta=$out/m$k.meta.json
 patch=$out/m$k.patch.diff
 export GOFLAGS=-mod=mod GOPROXY=off GOSUMDB=off GOTOOLCHAIN=local
